@@ -30,6 +30,21 @@ CHECKS = {
         ref="DESIGN.md section 4 C11"),
 }
 
+CHECKS.update({
+    "C08": dict(
+        technique="protocol exhaustiveness against the wrapper class table (+ wrapt forwarding table parsed from source), path-sensitive taint analysis (user path strings -> raw container, sanitiser _guard_path), CFG edge-dominance of listing filters, constant folding of the reserved-prefix predicates",
+        text="Decides for every method of the group/file protocol and every path argument that a reserved name cannot reach the raw container unguarded, that no protocol member bypasses the wrapper, "
+             "that listings/visits are filtered and that the guard predicate covers every bookkeeping path — statements over all inputs that a finite set of sample paths cannot establish.",
+        note="Not decided: the second sentence of the property (user-visible tree equals the plain-tree result) — a run-time equality.",
+        ref="DESIGN.md section 4 C08"),
+    "C15": dict(
+        technique="induction over navigation steps: classification of every value handed out by the wrapper layer (return/yield/callback argument) + OWN rule for flag stores + guard dominance tables with the _wrap_method factory expanded",
+        text="Replaces the bounded enumeration of navigation chains by an induction step decided statically: every single navigation primitive preserves the restriction flags, flags are monotone, "
+             "and every mutating / data-reading / upward operation is dominated by its guard; hence every chain of any length preserves them.",
+        note="Not decided: attributes outside the H5*Like protocol that MetadorDataset.__getattr__ passes through; bypass via __wrapped__ (documented soft restriction). One known finding (MetadorNode.file) is listed in known_findings.json.",
+        ref="DESIGN.md section 4 C15"),
+})
+
 REASON_PENDING = "check not built yet (build in progress; see DESIGN.md section 4 for the planned static rules)"
 NOT_APPLICABLE = {}
 
